@@ -285,6 +285,12 @@ func main() {
 		}
 		return a.pos < b.pos
 	})
+	if *out != "" {
+		if err := emitAccess(pkgs, *out); err != nil {
+			fmt.Fprintln(os.Stderr, err)
+			os.Exit(2)
+		}
+	}
 	if *factsPath != "" {
 		j, _ := json.MarshalIndent(facts, "", " ")
 		if err := os.WriteFile(*factsPath, j, 0o644); err != nil {
